@@ -1,10 +1,16 @@
 package c15
 
 import (
+	"bytes"
 	"context"
 	"encoding/json"
+	"net/http/httptest"
 	"testing"
 	"time"
+
+	"github.com/samsarahq/thunder/graphql"
+
+	"verifharness/fakesock"
 )
 
 // FuzzPipeline: coverage-guided search over query text and a JSON variables document with the
@@ -41,6 +47,90 @@ func FuzzPipeline(f *testing.F) {
 			}
 		case <-time.After(20 * time.Second):
 			t.Fatalf("%d-byte document still running after %v\nquery: %q", len(text), time.Since(start), text)
+		}
+	})
+}
+
+// FuzzEnvelope: raw websocket frames (one per line of the input) into ServeJSONSocket. As
+// long as every frame decodes as an envelope the read loop must keep answering echo; in every
+// case ServeJSONSocket returns after the socket is closed and nothing panics.
+func FuzzEnvelope(f *testing.F) {
+	f.Add([]byte(`{"id":"a","type":"subscribe","message":{"query":"{ allO1 { id } }","variables":{}}}` + "\n" + `{"id":"a","type":"unsubscribe"}`))
+	f.Add([]byte(`{"id":"m","type":"mutate","message":{"query":"mutation { bump(typ: \"O1\", id: 1) }","variables":null}}`))
+	f.Add([]byte(`{"id":"a","type":"subscribe","message":{"query":"{A(A:[[\u0016","variables":[1]}}` + "\n" + `{"id":1}`))
+	f.Add([]byte(`{"id":"","type":"url","message":5}` + "\n" + `{"type":"echo","id":"x","message":{"a":[null]},"extensions":{"k":1}}`))
+	f.Add([]byte(`{"id":"a","type":"subscribe","message":"x"}` + "\n" + `{"id":"a","type":"subscribe","message":{"query":5}}` + "\n" + `[]`))
+	f.Fuzz(func(t *testing.T, data []byte) {
+		if len(data) > 4000 {
+			t.Skip()
+		}
+		sock := fakesock.New()
+		ctx, cancel := context.WithCancel(context.Background())
+		defer cancel()
+		conn := graphql.CreateConnection(ctx, sock, bound.Schema, graphql.WithMinRerunInterval(time.Millisecond))
+		done := make(chan interface{}, 1)
+		go func() {
+			defer func() { done <- recover() }()
+			conn.ServeJSONSocket()
+		}()
+		undecodable := false
+		for _, frame := range bytes.Split(data, []byte("\n")) {
+			var probe struct {
+				ID         string                 `json:"id"`
+				Type       string                 `json:"type"`
+				Message    json.RawMessage        `json:"message"`
+				Extensions map[string]interface{} `json:"extensions,omitempty"`
+			}
+			if json.Unmarshal(frame, &probe) != nil {
+				undecodable = true // the read loop ends on an undecodable frame
+			}
+			sock.Send(append([]byte{}, frame...))
+			if undecodable {
+				break
+			}
+		}
+		if !undecodable && !sock.Echo("__probe", 20*time.Second) {
+			t.Fatalf("the connection does not answer an echo after frames %q", data)
+		}
+		sock.Close()
+		select {
+		case r := <-done:
+			if r != nil {
+				t.Fatalf("ServeJSONSocket panicked on frames %q: %v", data, r)
+			}
+		case <-time.After(20 * time.Second):
+			t.Fatalf("ServeJSONSocket does not return after the socket closed; frames %q", data)
+		}
+	})
+}
+
+// FuzzHTTP: arbitrary request bodies into the HTTP handler: it answers (any status) within
+// seconds and does not panic.
+func FuzzHTTP(f *testing.F) {
+	f.Add([]byte(`{"query":"{ allO1 { id } }","variables":{}}`))
+	f.Add([]byte(`{"query":"query Q($v: int64 = 1) { allO1 { f0(x: $v) } }","variables":{"v":[1]}}`))
+	f.Add([]byte(`{"query":5}`))
+	f.Add([]byte(`{"query":"{A(A:[[\u0016","variables":"x"}`))
+	f.Add([]byte(`null`))
+	h := graphql.HTTPHandler(bound.Schema)
+	f.Fuzz(func(t *testing.T, body []byte) {
+		if len(body) > 8000 {
+			t.Skip()
+		}
+		req := httptest.NewRequest("POST", "/graphql", bytes.NewReader(body))
+		w := httptest.NewRecorder()
+		done := make(chan interface{}, 1)
+		go func() {
+			defer func() { done <- recover() }()
+			h.ServeHTTP(w, req)
+		}()
+		select {
+		case r := <-done:
+			if r != nil {
+				t.Fatalf("ServeHTTP panicked: %v; body %q", r, body)
+			}
+		case <-time.After(20 * time.Second):
+			t.Fatalf("ServeHTTP does not return; body %q", body)
 		}
 	})
 }
